@@ -248,13 +248,13 @@ def report(scen, prop, tier, seed, jobs, results, cut, nat, known, ev_path, t_st
             if confirmed: validated += 1
             elif confirmed is False and v.get('class') == 'value': mismatches.append(vid)
         v['native_confirmed'] = confirmed
-        if k is not None:
-            nknown += 1
-            lines.append('KNOWN-FINDING: property=%s %s [%s]' % (prop, k['what'], vid))
-            continue
         os.makedirs(rdir, exist_ok=True)
         rp = os.path.join(rdir, hashlib.md5(vid.encode()).hexdigest()[:10] + '.json')
         with open(rp, 'w') as f: json.dump({'property': prop, 'id': vid, 'detail': v['detail'], 'class': v.get('class'), 'native_confirmed': confirmed, 'replay': v.get('replay'), 'job': v.get('job')}, f, indent=1, sort_keys=True)
+        if k is not None:
+            nknown += 1
+            lines.append('KNOWN-FINDING: property=%s %s [%s] replay=%s' % (prop, k['what'], vid, rp))
+            continue
         nviol += 1
         lines.append('VIOLATION property=%s replay=%s  # %s: %s%s' % (prop, rp, vid, v['detail'], '' if confirmed is None else (' [native: %s]' % ('confirmed' if confirmed else 'NOT reproduced'))))
     if hasattr(scen, 'extra_validation'):
